@@ -24,8 +24,38 @@ pub trait HandN<const N: usize>: Sync {
     fn freq() -> &'static [u64; 9];
 }
 
+pub struct H5;
 pub struct H6;
 pub struct H7;
+
+impl HandN<5> for H5 {
+    const NAME: &'static str = "Five";
+    fn entries() -> &'static [Entry<5>] {
+        &FIVE_ENTRIES
+    }
+    #[inline(always)]
+    fn hrv(a: [u32; 5]) -> u16 {
+        Five::from(a).hand_rank_value()
+    }
+    #[inline(always)]
+    fn value_and_hand(a: [u32; 5]) -> (u16, [u32; 5]) {
+        let (v, h) = Five::from(a).hand_rank_value_and_hand();
+        (v, h.to_arr())
+    }
+    #[inline(always)]
+    fn all_entries_bad(a: [u32; 5], exp: u16) -> u32 {
+        let mut bad = 0;
+        for (i, e) in FIVE_ENTRIES.iter().enumerate() {
+            if (e.1)(a) != exp {
+                bad |= 1 << i;
+            }
+        }
+        bad
+    }
+    fn freq() -> &'static [u64; 9] {
+        &poker::FREQ5
+    }
+}
 
 impl HandN<6> for H6 {
     const NAME: &'static str = "Six";
@@ -175,7 +205,7 @@ pub fn witness_check(t: &poker::Tables, input: &[u32], v: u16, wit: &[u32; 5]) -
 // ---------------------------------------------------------------------------------------------
 // the scan shared by C02 and C03
 
-#[derive(Clone, Copy, PartialEq)]
+#[derive(Clone, Copy, PartialEq, Debug)]
 pub enum Mode {
     Value,   // C02
     Witness, // C03
@@ -351,7 +381,8 @@ fn scan<const N: usize, H: HandN<N>>(run: &mut Run, mode: Mode, cfg: &ScanCfg) -
                 Ok(Some(wbad)) => {
                     acc.fail = examine::<N, H>(t, wbad, exp, mode);
                     if acc.fail.is_none() {
-                        panic!("fast and slow paths disagree on {:?} (the same call gave different results when repeated: the code under test is not a function of its input)", wbad);
+                        let msg = engine::unstable_message(&format!("{}-card hand [{}]", N, card::render_hand(&wbad)), || guard(|| fast_ok::<N, H>(t, wbad, exp, mode, true)) == Ok(true));
+                        acc.fail = Some(Fail { words: wbad.to_vec(), clause: if mode == Mode::Value { "C02.unstable" } else { "C03.unstable" }, detail: msg, entry: H::entries()[0].0.to_string(), expected: exp });
                     }
                     return false;
                 }
@@ -548,7 +579,8 @@ fn six_all_orders(run: &mut Run, mode: Mode) -> PResult {
             Ok(Some(wp)) => {
                 acc.fail = examine::<6, H6>(t, wp, exp, mode);
                 if acc.fail.is_none() {
-                    panic!("fast and slow paths disagree on {:?} (the same call gave different results when repeated: the code under test is not a function of its input)", wp);
+                    let msg = engine::unstable_message(&format!("6-card hand [{}]", card::render_hand(&wp)), || guard(|| fast_ok::<6, H6>(t, wp, exp, mode, false)) == Ok(true));
+                    acc.fail = Some(Fail { words: wp.to_vec(), clause: if mode == Mode::Value { "C02.unstable" } else { "C03.unstable" }, detail: msg, entry: SIX_ENTRIES[0].0.to_string(), expected: exp });
                 }
                 false
             }
@@ -570,9 +602,53 @@ fn six_all_orders(run: &mut Run, mode: Mode) -> PResult {
 // purity: ranking is a function of the hand alone (no state may leak between calls)
 
 /// a neighbour of hand `c` (ascending ci): same shape, different cards
-fn neighbour<const N: usize>(c: &[u8; N], kind: u8, param: u64) -> [u8; N] {
+pub const NEIGHBOUR_KINDS: u8 = 7;
+
+pub fn neighbour<const N: usize>(c: &[u8; N], kind: u8, param: u64) -> [u8; N] {
     let mut out = *c;
-    match kind % 5 {
+    match kind % NEIGHBOUR_KINDS {
+        6 => {
+            // two cards of different suits trade suits (keeps the sum and the XOR of the words, the
+            // multiset of ranks and the multiset of suits)
+            let i = (param % N as u64) as usize;
+            for d in 1..N {
+                let j = (i + d + ((param >> 8) as usize) % N) % N;
+                if j == i || c[i] & 3 == c[j] & 3 || c[i] >> 2 == c[j] >> 2 {
+                    continue;
+                }
+                let (ni, nj) = ((c[i] & !3) | (c[j] & 3), (c[j] & !3) | (c[i] & 3));
+                if !c.contains(&ni) && !c.contains(&nj) {
+                    out[i] = ni;
+                    out[j] = nj;
+                    break;
+                }
+            }
+        }
+        5 => {
+            // move two cards that share a suit to another common suit (keeps every aggregate that
+            // is computed slot by slot and cancels in pairs, e.g. the XOR of the words)
+            let s = (param % 4) as u8;
+            let idx: Vec<usize> = (0..N).filter(|i| c[*i] & 3 == s).collect();
+            if idx.len() >= 2 {
+                let i = idx[((param >> 8) as usize) % idx.len()];
+                let mut j = idx[((param >> 16) as usize) % idx.len()];
+                if i == j {
+                    j = idx[(idx.iter().position(|x| *x == i).unwrap() + 1) % idx.len()];
+                }
+                for d in 1..4u8 {
+                    let s2 = (s + d + ((param >> 24) % 3) as u8) % 4;
+                    if s2 == s {
+                        continue;
+                    }
+                    let (ni, nj) = ((c[i] & !3) | s2, (c[j] & !3) | s2);
+                    if !c.contains(&ni) && !c.contains(&nj) {
+                        out[i] = ni;
+                        out[j] = nj;
+                        break;
+                    }
+                }
+            }
+        }
         0 => {
             // relabel the suits
             let p = perm_from_index::<4>(param % 24);
@@ -624,7 +700,7 @@ fn neighbour<const N: usize>(c: &[u8; N], kind: u8, param: u64) -> [u8; N] {
 }
 
 /// rank the hands of `seq` in order, on this thread, and compare every call with the model
-fn sequence_check<const N: usize, H: HandN<N>>(seq: &[[u8; N]]) -> Result<(), String> {
+fn sequence_check<const N: usize, H: HandN<N>>(seq: &[[u8; N]], mode: Mode) -> Result<(), String> {
     let t = poker::tables();
     // warm-up call with a fixed unrelated hand, so that whatever an earlier sequence (or an earlier
     // shrinking attempt) left behind in the code under test does not decide this sequence's outcome
@@ -642,7 +718,28 @@ fn sequence_check<const N: usize, H: HandN<N>>(seq: &[[u8; N]]) -> Result<(), St
     for (i, c) in seq.iter().enumerate() {
         let exp = poker::best_direct(t, c);
         let w = words_of_ci(c);
-        let got = guard(|| H::hrv(w));
+        let got = if mode == Mode::Witness {
+            // the reported hand must be a valid witness of the model's value
+            match guard(|| H::value_and_hand(w)) {
+                Ok((v, wit)) => {
+                    if N == 5 {
+                        // five-card input: the reported hand is the input unchanged (no ordering clause)
+                        if wit[..] != w[..] {
+                            Err(format!("reported the hand [{}], not the input unchanged", card::render_hand(&wit)))
+                        } else {
+                            Ok(v)
+                        }
+                    } else if v != exp {
+                        Ok(v)
+                    } else {
+                        witness_check(t, &w, v, &wit).map(|_| v)
+                    }
+                }
+                Err(m) => Err(m),
+            }
+        } else {
+            guard(|| H::hrv(w))
+        };
         if got != Ok(exp) {
             let before: Vec<String> = seq[..i].iter().map(|h| card::render_hand(&words_of_ci(h))).collect();
             return Err(format!(
@@ -659,11 +756,11 @@ fn sequence_check<const N: usize, H: HandN<N>>(seq: &[[u8; N]]) -> Result<(), St
     Ok(())
 }
 
-fn purity<const N: usize, H: HandN<N>>(run: &mut Run) -> PResult {
+pub fn purity<const N: usize, H: HandN<N>>(run: &mut Run, clause: &'static str, mode: Mode) -> PResult {
     let total = choose(52, N as u64);
     let cases: u32 = if run.tier == Tier::Thorough { 2_000_000 } else { 200_000 };
     let st = engine::RStats::new();
-    let make = || (0..total, 0u8..5, proptest::prelude::any::<u64>(), 0u8..5, proptest::prelude::any::<u64>());
+    let make = || (0..total, 0u8..NEIGHBOUR_KINDS, proptest::prelude::any::<u64>(), 0u8..NEIGHBOUR_KINDS, proptest::prelude::any::<u64>());
     let build = |(idx, k1, p1, k2, p2): (u64, u8, u64, u8, u64)| -> Vec<[u8; N]> {
         let a = unrank::<N>(52, idx);
         let b = neighbour(&a, k1, p1);
@@ -674,18 +771,18 @@ fn purity<const N: usize, H: HandN<N>>(run: &mut Run) -> PResult {
     let res = pt::run(run.seed, 0x9E0 + N as u64, cases, &make(), |v| {
         let seq = build(v);
         st.note(mix2(v.0, mix2(v.2 ^ v.1 as u64, v.4 ^ v.3 as u64)), true, Some(&format!("neighbour kinds {} then {}", v.1, v.3)), || json!({"sequence": seq.iter().map(|h| card::render_hand(&words_of_ci(h))).collect::<Vec<_>>()}));
-        sequence_check::<N, H>(&seq).map_err(|e| {
+        sequence_check::<N, H>(&seq, mode).map_err(|e| {
             st.freeze();
             e
         })
     });
-    st.flush(run, &format!("{}-card call sequences over neighbour hands (A B A C B A)", N), "proptest (histories)", None, "neighbours: suits relabelled, one card replaced, a rank group moved to an absent rank, all ranks rotated, two slots swapped; every call compared with the model");
+    st.flush(run, &format!("{}-card call sequences over neighbour hands (A B A C B A)", N), "proptest (histories)", None, "neighbours: suits relabelled, one card replaced, a rank group moved to an absent rank, all ranks rotated, two slots swapped, two same-suited cards moved to another suit, two cards trading suits; every call compared with the model");
     if let Err(f) = res {
         let seq = build(f.value);
         // shortest failing prefix, then drop calls that are not needed
         let mut cur: Vec<[u8; N]> = seq.clone();
         for n in 1..=seq.len() {
-            if sequence_check::<N, H>(&seq[..n]).is_err() {
+            if sequence_check::<N, H>(&seq[..n], mode).is_err() {
                 cur = seq[..n].to_vec();
                 break;
             }
@@ -694,16 +791,16 @@ fn purity<const N: usize, H: HandN<N>>(run: &mut Run) -> PResult {
         while cur.len() > 1 && i + 1 < cur.len() {
             let mut cand = cur.clone();
             cand.remove(i);
-            if sequence_check::<N, H>(&cand).is_err() {
+            if sequence_check::<N, H>(&cand, mode).is_err() {
                 cur = cand;
             } else {
                 i += 1;
             }
         }
-        let m = sequence_check::<N, H>(&cur).err().unwrap_or_else(|| "not reproducible".into());
+        let m = sequence_check::<N, H>(&cur, mode).err().unwrap_or_else(|| "not reproducible".into());
         let hands: Vec<Value> = cur.iter().map(|h| hand_json(&words_of_ci(h))).collect();
         let sig = cur.iter().map(|h| card::render_hand(&words_of_ci(h))).collect::<Vec<_>>().join(" ; ");
-        return run.violation("C02.sequence", &sig, json!({"size": N, "sequence": hands}), &m);
+        return run.violation(clause, &sig, json!({"size": N, "sequence": hands}), &m);
     }
     Ok(())
 }
@@ -712,7 +809,7 @@ fn purity<const N: usize, H: HandN<N>>(run: &mut Run) -> PResult {
 // C02
 
 pub fn run_c02(run: &mut Run) -> PResult {
-    run.rule = "every 6-card subset and (quick: a seeded 1-in-8 stratum of / thorough: every) 7-card subset of the deck in canonical (ascending) slot order through all five entry points, plus seeded slot orders per hand, plus random hands under every slot order; expected = min ordinal over all five-subsets (model) which must also equal a direct rule-based n-card evaluation. Non-trivial = the best hand is not simply the first five slots; distinct = distinct subsets".into();
+    run.rule = "call sequences A B A C B A over neighbour hands on one thread (ranking must not depend on earlier calls); every 6-card subset and (quick: a seeded 1-in-8 stratum of / thorough: every) 7-card subset of the deck in ascending and descending slot order through all five entry points, plus seeded slot orders per hand, plus random hands under every slot order (thorough: every 6-card subset under all 720 orders); expected = min ordinal over all five-subsets (model) which must also equal a direct rule-based n-card evaluation. Non-trivial = the best hand is not simply the first five slots; distinct = distinct subsets".into();
     run.assume("model self-checked: best-hand category frequencies equal the published 6- and 7-card counts whenever the enumeration is complete");
     let thorough = run.tier == Tier::Thorough;
     let twin = run.is_twin();
@@ -720,8 +817,8 @@ pub fn run_c02(run: &mut Run) -> PResult {
     if !twin {
         // first: ranking must be a function of the hand alone (a leak of state between calls would
         // make every later enumeration result depend on scheduling)
-        purity::<6, H6>(run)?;
-        purity::<7, H7>(run)?;
+        purity::<6, H6>(run, "C02.sequence", Mode::Value)?;
+        purity::<7, H7>(run, "C02.sequence", Mode::Value)?;
     }
     scan::<6, H6>(run, Mode::Value, &ScanCfg { stratum: 1, orders: if thorough { 4 } else { 1 } })?;
     scan::<7, H7>(run, Mode::Value, &ScanCfg { stratum: if thorough { 1 } else if twin { 32 } else { 8 }, orders: if thorough { 4 } else { 1 } })?;
@@ -741,24 +838,39 @@ pub fn run_c02(run: &mut Run) -> PResult {
     Ok(())
 }
 
+/// replay of a saved call sequence (all hands of one size)
+pub fn check_sequence_case(case: &Value, mode: Mode) -> Result<(), String> {
+    let mut seq5: Vec<[u8; 5]> = Vec::new();
+    let mut seq6: Vec<[u8; 6]> = Vec::new();
+    let mut seq7: Vec<[u8; 7]> = Vec::new();
+    for h in case["sequence"].as_array().ok_or("sequence")? {
+        let ws = engine::parse_words(&h["words"])?;
+        let cis = cis_of(&ws)?;
+        match cis.len() {
+            5 => seq5.push(core::array::from_fn(|i| cis[i])),
+            6 => seq6.push(core::array::from_fn(|i| cis[i])),
+            7 => seq7.push(core::array::from_fn(|i| cis[i])),
+            n => return Err(format!("size {}", n)),
+        }
+    }
+    if !seq5.is_empty() {
+        sequence_check::<5, H5>(&seq5, mode)?;
+    }
+    if !seq6.is_empty() {
+        sequence_check::<6, H6>(&seq6, mode)?;
+    }
+    if !seq7.is_empty() {
+        sequence_check::<7, H7>(&seq7, mode)?;
+    }
+    Ok(())
+}
+
 pub fn check_case_c02(clause: &str, case: &Value) -> Result<(), String> {
     let t = poker::tables();
     if clause == "C02.sequence" {
-        let mut seq6: Vec<[u8; 6]> = Vec::new();
-        let mut seq7: Vec<[u8; 7]> = Vec::new();
-        for h in case["sequence"].as_array().ok_or("sequence")? {
-            let ws = engine::parse_words(&h["words"])?;
-            let cis = cis_of(&ws)?;
-            match cis.len() {
-                6 => seq6.push(core::array::from_fn(|i| cis[i])),
-                7 => seq7.push(core::array::from_fn(|i| cis[i])),
-                n => return Err(format!("size {}", n)),
-            }
-        }
-        sequence_check::<6, H6>(&seq6)?;
-        return sequence_check::<7, H7>(&seq7);
+        return check_sequence_case(case, Mode::Value);
     }
-    if clause != "C02.value" {
+    if clause != "C02.value" && clause != "C02.unstable" {
         return Err(format!("unknown clause {}", clause));
     }
     let ws = engine::parse_words(&case["words"])?;
@@ -813,10 +925,15 @@ fn five_identity(w: [u32; 5]) -> Result<(), String> {
 }
 
 pub fn run_c03(run: &mut Run) -> PResult {
-    run.rule = "same hand enumerations as C02, observing the reported five-card hand: validity predicate (five slots, all from the input, pairwise distinct, strictly descending, ranks to the reported value both by the crate and by the model); for five-card inputs (all subsets x all 120 orders) the reported hand must be the input unchanged. Non-trivial = six/seven-card hands whose best hand is not the first five slots, five-card hands in a non-sorted order; distinct = distinct subsets".into();
+    run.rule = "same hand enumerations as C02 (ascending, descending, seeded and all slot orders), observing the reported five-card hand: validity predicate (five slots, all from the input, pairwise distinct, strictly descending, ranks to the reported value both by the crate and by the model); for five-card inputs (all subsets x all 120 orders) the reported hand must be the input unchanged. Non-trivial = six/seven-card hands whose best hand is not the first five slots, five-card hands in a non-sorted order; distinct = distinct subsets".into();
     run.assume("no claim about which of several equally ranked witnesses is chosen");
     let thorough = run.tier == Tier::Thorough;
     super::regress::replay_dir(run, "C03", check_case_c03)?;
+    if !run.is_twin() {
+        purity::<5, H5>(run, "C03.sequence", Mode::Witness)?;
+        purity::<6, H6>(run, "C03.sequence", Mode::Witness)?;
+        purity::<7, H7>(run, "C03.sequence", Mode::Witness)?;
+    }
     // identity clause
     let perms = perms5();
     let acc = par_tuples::<5, A5>(
@@ -867,11 +984,14 @@ pub fn run_c03(run: &mut Run) -> PResult {
 }
 
 pub fn check_case_c03(clause: &str, case: &Value) -> Result<(), String> {
+    if clause == "C03.sequence" {
+        return check_sequence_case(case, Mode::Witness);
+    }
     let t = poker::tables();
     let ws = engine::parse_words(&case["words"])?;
     match clause {
         "C03.identity" => five_identity(arr::<5>(&ws)?),
-        "C03.witness" => {
+        "C03.witness" | "C03.unstable" => {
             cis_of(&ws)?;
             let (v, wit) = match ws.len() {
                 6 => guard(|| H6::value_and_hand(arr::<6>(&ws).unwrap())),
@@ -990,6 +1110,11 @@ pub fn run_c09(run: &mut Run) -> PResult {
     run.assume("metamorphic relation only: no poker oracle is used here (C02 carries the rule-based oracle)");
     let thorough = run.tier == Tier::Thorough;
     super::regress::replay_dir(run, "C09", check_case_c09)?;
+    if !run.is_twin() {
+        // the relation is between values of different calls: those values must not depend on call order
+        purity::<6, H6>(run, "C09.sequence", Mode::Value)?;
+        purity::<7, H7>(run, "C09.sequence", Mode::Value)?;
+    }
     let binom = binom_table();
     let seed = run.seed;
     // memo tables, filled from the crate
@@ -1102,6 +1227,9 @@ pub fn run_c09(run: &mut Run) -> PResult {
 }
 
 pub fn check_case_c09(clause: &str, case: &Value) -> Result<(), String> {
+    if clause == "C09.sequence" {
+        return check_sequence_case(case, Mode::Value);
+    }
     let ws = engine::parse_words(&case["words"])?;
     cis_of(&ws)?;
     match clause {
